@@ -157,17 +157,21 @@ func (o *OCIDir) initIndex(r ref.Ref, locked bool) error {
 		o.mu.Lock()
 		defer o.mu.Unlock()
 	}
-	layoutFile := path.Join(r.Path, imageLayoutFile)
-	_, err := os.Stat(layoutFile)
-	if err == nil {
+	return o.writeLayout(r.Path)
+}
+
+// writeLayout creates the oci-layout file when it is missing or cannot be used.
+// A valid file is left untouched, and a new one is written to a temp file and renamed into place,
+// so that an interrupted process never leaves an existing layout with a truncated oci-layout file.
+func (o *OCIDir) writeLayout(dir string) error {
+	if o.valid(dir, true) == nil {
 		return nil
 	}
 	//#nosec G301 defer to user umask settings
-	err = os.MkdirAll(r.Path, 0777)
+	err := os.MkdirAll(dir, 0777)
 	if err != nil && !errors.Is(err, fs.ErrExist) {
-		return fmt.Errorf("failed creating %s: %w", r.Path, err)
+		return fmt.Errorf("failed creating %s: %w", dir, err)
 	}
-	// create/replace oci-layout file
 	layout := v1.ImageLayout{
 		Version: "1.0.0",
 	}
@@ -175,14 +179,23 @@ func (o *OCIDir) initIndex(r ref.Ref, locked bool) error {
 	if err != nil {
 		return fmt.Errorf("cannot marshal layout: %w", err)
 	}
-	//#nosec G304 users should validate references they attempt to open
-	lfh, err := os.Create(layoutFile)
+	// the temp file is truncated if a previous attempt left it behind, index writes are serialized by the mutex
+	tmpName := path.Join(dir, imageLayoutFile+".tmp")
+	//#nosec G302 G304 defer to user umask settings
+	tmpFile, err := os.OpenFile(tmpName, os.O_WRONLY|os.O_CREATE|os.O_TRUNC, 0666)
 	if err != nil {
 		return fmt.Errorf("cannot create %s: %w", imageLayoutFile, err)
 	}
-	defer lfh.Close()
-	_, err = lfh.Write(lb)
+	_, err = tmpFile.Write(lb)
+	errC := tmpFile.Close()
+	if err == nil {
+		err = errC
+	}
+	if err == nil {
+		err = os.Rename(tmpName, path.Join(dir, imageLayoutFile))
+	}
 	if err != nil {
+		_ = os.Remove(tmpName)
 		return fmt.Errorf("cannot write %s: %w", imageLayoutFile, err)
 	}
 	return nil
@@ -249,27 +262,10 @@ func (o *OCIDir) writeIndex(r ref.Ref, i v1.Index, locked bool) error {
 		o.mu.Lock()
 		defer o.mu.Unlock()
 	}
-	//#nosec G301 defer to user umask settings
-	err := os.MkdirAll(r.Path, 0777)
-	if err != nil && !errors.Is(err, fs.ErrExist) {
-		return fmt.Errorf("failed creating %s: %w", r.Path, err)
-	}
-	// create/replace oci-layout file
-	layout := v1.ImageLayout{
-		Version: "1.0.0",
-	}
-	lb, err := json.Marshal(layout)
+	// create the oci-layout file if needed, a valid file is never rewritten
+	err := o.writeLayout(r.Path)
 	if err != nil {
-		return fmt.Errorf("cannot marshal layout: %w", err)
-	}
-	lfh, err := os.Create(path.Join(r.Path, imageLayoutFile))
-	if err != nil {
-		return fmt.Errorf("cannot create %s: %w", imageLayoutFile, err)
-	}
-	defer lfh.Close()
-	_, err = lfh.Write(lb)
-	if err != nil {
-		return fmt.Errorf("cannot write %s: %w", imageLayoutFile, err)
+		return err
 	}
 	// create/replace index.json file
 	tmpFile, err := os.CreateTemp(r.Path, "index.json.*.tmp")
